@@ -5,3 +5,4 @@ package props
 import "github.com/gcash/bchutil"
 
 var hookCashPolyMod func([]byte) uint64 = bchutil.VerifPolyMod
+var hookCashVerify func(string, []byte) bool = bchutil.VerifVerifyChecksum
